@@ -130,7 +130,7 @@ func TestC05(t *testing.T) {
 		longLivedHandle(t, r, tmp)
 		clientCacheModes(t, r, tmp)
 	}
-	r.Require("files_scanned", "scans_after_operation", "kek_checks", "kek_checks_after_reopen", "bit_flips", "truncations", "splices", "foreign_key_opens", "tampered_opens_rejected", "crash_point_scans", "temporaries_scanned", "mode_checks", "kek_checks_after_failed_write", "kek_checks_long_lived_handle", "client_cache_mode_checks", "creating_open_calls_observed", "cache_crash_point_scans", "backup_uploads_scanned", "audit_dir_mode_checks", "external_stat_changes", "refused_writes_scanned", "forged_key_material_opens")
+	r.Require("files_scanned", "scans_after_operation", "kek_checks", "kek_checks_after_reopen", "bit_flips", "truncations", "splices", "foreign_key_opens", "tampered_opens_rejected", "crash_point_scans", "temporaries_scanned", "mode_checks", "kek_checks_after_failed_write", "kek_checks_long_lived_handle", "client_cache_mode_checks", "creating_open_calls_observed", "cache_crash_point_scans", "backup_uploads_scanned", "audit_dir_mode_checks", "external_stat_changes", "refused_writes_scanned", "forged_key_material_opens", "audit_log_rotations_while_running")
 	r.Rule("histories of 15-25 operations with marker names and values on a state directory holding the database and a real audit log, every file scanned after every operation, KEK call counter read after every operation (also after a reopen); tamper loop on saved files: every single-bit flip, every truncation length, version-field edits, DEK/DB splices between databases under the same and under a different KEK, foreign KEKs; crash points of a save scanned for plaintext in temporaries. Distinct = (operation kind, file kind) for scans and (tamper kind, outcome)")
 }
 
@@ -696,6 +696,18 @@ func auditLogFiles(t *testing.T, r *evid.Run, tmp string) {
 			t.Fatal(err)
 		}
 		d.Put(realdb.Super(), fmt.Sprintf("audited/%d", round), []byte("v"))
+		// the log is rotated from outside while the server runs (logrotate: rename aside; or simply removed),
+		// and the server goes on auditing
+		if round%2 == 1 {
+			os.Rename(p, p+".1")
+		} else {
+			os.Remove(p)
+		}
+		for k := 0; k < 3; k++ {
+			d.Put(realdb.Super(), fmt.Sprintf("audited/%d/after-rotation-%d", round, k), []byte("v"))
+			d.Get(realdb.Super(), fmt.Sprintf("audited/%d", round))
+		}
+		r.Count("audit_log_rotations_while_running", 1)
 		w.Close()
 		ents, _ := os.ReadDir(dir)
 		for _, e := range ents {
